@@ -366,7 +366,7 @@ def main():
     timing["proofs+extraction"] = round(time.time() - t0, 1)
     quick = c.tier == "quick"
     rng = c.rng
-    nprog, nseeds, nhosts, npersub, nshards = (18, 2, 3, 4, 5) if quick else (120, 3, 8, 3, 8)
+    nprog, nseeds, nhosts, npersub, nshards = (18, 2, 3, 4, 5) if quick else (72, 2, 8, 3, 8)
     nprog = int(os.environ.get("VERIF_C15_NPROG", nprog))   # development aid (self-tests on a loaded machine)
     workers = min(int(os.environ.get("VERIF_WORKERS", 16)), common.NCPU)
     progs = [f2_witness(), spec_witness()][:nprog]
